@@ -22,7 +22,16 @@ def run_rules(prop: str, tier: str, repo: Repo) -> Ctx:
     mod = importlib.import_module(f"sa.props.{prop.lower()}")
     ctx = Ctx(prop, tier, repo)
     ctx.explanation = " ".join((mod.EXPLANATION or "").split())
-    mod.check(ctx)
+    try:
+        mod.check(ctx)
+    except AnalysisError as e:
+        # a construct that a later rule cannot read is often the consequence of a breakage an
+        # earlier rule has already positively identified: report that violation (exit 1) rather
+        # than hiding it behind "undecided"; with no violation recorded the run is undecided.
+        if not any(r["verdict"] == "violation" for r in ctx.records):
+            raise
+        ctx.observe(f"analysis stopped early: {e}")
+        ctx.partial = str(e)
     return ctx
 
 
@@ -132,6 +141,11 @@ def main(argv=None):
         else:
             viols.append(r)
 
+    if ctx.partial and not viols:
+        print(f"ANALYSIS-ERROR property={prop} {ctx.partial}")
+        return 2
+    if ctx.partial:
+        print(f"note: analysis stopped early after the violation(s) below: {ctx.partial}")
     if a.replay:
         with open(a.replay) as f:
             want = json.load(f)
